@@ -1,4 +1,5 @@
 import ZwVerif.Lemmas.Evs
+import ZwVerif.Generated.TreeTypes
 set_option linter.unusedSimpArgs false
 set_option linter.unusedVariables false
 /-!
@@ -69,6 +70,28 @@ theorem lexer_rules_tie :
 theorem lexer_actions_tie :
     Generated.lex_INITIAL.map (·.2.2) = actionDigestsInitial ∧ Generated.lex_STRING.map (·.2.2) = actionDigestsString ∧
     Generated.lex_STRING_EMBEDDED.map (·.2.2) = actionDigestsEmbedded ∧ Generated.lex_EOF = eofRules := by decide +kernel
+
+/-! ### the tie with tree.hh -/
+
+/-- the tree types of the model, in the declaration order of tree.hh -/
+def allTT : List TT :=
+  [.CAT, .ALT, .OR, .CAPTURE, .SUBX_EVAL, .IFELSE, .SCOPE, .BLOCK, .BIND, .READ, .NOP, .CLOSE_STAR, .CLOSE_PLUS, .ASSERT,
+   .EMPTY_LIST, .PRED_AND, .PRED_OR, .PRED_NOT, .PRED_SUBX_ANY, .CONST, .STR, .FORMAT, .F_DEBUG, .F_BUILTIN]
+
+/-- what a node of each type carries besides children (the arity classes of tree.hh) -/
+def ttArity : TT → String
+  | .CAT | .ALT | .OR | .PRED_AND | .PRED_OR => "BINARY"
+  | .CAPTURE | .BLOCK | .CLOSE_STAR | .CLOSE_PLUS | .ASSERT | .PRED_NOT | .PRED_SUBX_ANY => "UNARY"
+  | .SUBX_EVAL | .CONST => "CST"
+  | .IFELSE => "TERNARY"
+  | .SCOPE => "SCOPE"
+  | .BIND | .READ | .STR => "STR"
+  | .NOP | .EMPTY_LIST | .FORMAT | .F_DEBUG => "NULLARY"
+  | .F_BUILTIN => "BUILTIN"
+
+/-- the model's tree types are exactly TREE_TYPES of tree.hh (regenerated on every run): same
+    names — what the tree printer writes and the correspondence compares —, same order, same classes -/
+theorem tree_types_tie : Generated.treeTypes = allTT.map fun t => (ttName t, ttArity t) := by decide
 
 /-- `create_cat`: the result never has a child of its own kind when the operands had none -/
 theorem createCat_flat (tt : TT) (a b : Tree)
